@@ -1009,6 +1009,8 @@ static int run_threads(int K)
   return 0;
 }
 
+#include "nest.h"
+
 int main(int argc, char** argv)
 {
   std::string mode = argc > 1 ? argv[1] : "sig";
@@ -1022,7 +1024,7 @@ int main(int argc, char** argv)
     while (!line.empty() && (line.back() == '\n' || line.back() == '\r')) line.pop_back();
     if (nofork)
     {
-      std::string out = (mode == "track") ? run_track(line) : run_sig(line);
+      std::string out = (mode == "track") ? run_track(line) : (mode == "nest") ? run_nest(line) : run_sig(line);
       printf("%s\n", out.c_str()); fflush(stdout);
       continue;
     }
@@ -1035,7 +1037,7 @@ int main(int argc, char** argv)
       close(fds[0]); close(efd[0]);
       dup2(efd[1], 2);
       alarm(20);
-      std::string out = (mode == "track") ? run_track(line) : run_sig(line);
+      std::string out = (mode == "track") ? run_track(line) : (mode == "nest") ? run_nest(line) : run_sig(line);
       out.push_back('\n');
       (void)!write(fds[1], out.data(), out.size());
       _exit(0);
